@@ -91,15 +91,21 @@ def build_script(pats, subs, spec, contexts):
     if "glob" in contexts:
         L.append("mkdir d && cd d || exit 9")
         L.append('for s in "${subs[@]}"; do [ -n "$s" ] && : > "./$s"; done')
+        L.append('for s in "${subs[@]}"; do [ -n "$s" ] && [ "${#s}" -le 2 ] && : > "./.$s"; done        # dot-files: hidden unless the pattern component starts with a dot')
         L.append("IFS=")
         L.append('for pi in "${!pats[@]}"; do p=${pats[pi]}; set -- $p; printf "g$pi:"; for f in "$@"; do printf " %s" "${f@Q}"; done; echo; done')
+        # the same patterns behind an empty quoted piece and behind a quoted directory part: what is quoted must not change which names a
+        # leading dot hides
+        L.append('e=; for pi in "${!pats[@]}"; do p=${pats[pi]}; set -- ""$p "$e"$p; printf "h$pi:"; for f in "$@"; do printf " %s" "${f@Q}"; done; echo; done')
+        L.append('for pi in "${!pats[@]}"; do p=${pats[pi]}; set -- .$p "."$p; printf "j$pi:"; for f in "$@"; do printf " %s" "${f@Q}"; done; echo; done')
+        L.append('cd .. && for pi in "${!pats[@]}"; do p=${pats[pi]}; set -- "d/"$p; printf "i$pi:"; for f in "$@"; do printf " %s" "${f@Q}"; done; echo; done')
     return "\n".join(L) + "\n"
 
 
 def parse_out(out):
     res = {}
     for ln in out.splitlines():
-        m = re.match(r"^([ctngPS])(\d+):(.*)$", ln)
+        m = re.match(r"^([ctngPShij])(\d+):(.*)$", ln)
         if m:
             res[(m.group(1), int(m.group(2)))] = m.group(3)
     return res
@@ -173,6 +179,10 @@ def run(tier):
                             continue
                     if gr != gb and shlex_names(gr) != shlex_names(gb):
                         v.violation("%s:glob:%s" % (fam, json.dumps(row["p"])), {"kind": "pathname expansion differs", "pattern": text(row["p"]), "expected": gb, "observed": gr})
+                    for tag, what in (("h", 'behind an empty quoted piece (""$p "$e"$p)'), ("i", 'behind a quoted directory part ("d/"$p)'), ("j", 'after a leading dot (.$p "."$p), which makes dot-files eligible')):
+                        hb, hr = ob.get((tag, i)), orr.get((tag, i))
+                        if hb is not None and hr != hb and shlex_names(hr) != shlex_names(hb):
+                            v.violation("%s:glob%s:%s" % (fam, tag, json.dumps(row["p"])), {"kind": "pathname expansion differs " + what, "pattern": text(row["p"]), "expected": hb, "observed": hr})
         if len(samples) < 3:
             samples.append({"family": fam, "pattern": text(wd[len(wd) // 2]["p"]), "matches": [text(s) for s in wd[len(wd) // 2]["m"]][:12]})
     if v.audit_disagreements > 0.02 * max(1, defined):
